@@ -606,6 +606,13 @@ func (x *Exec) builtin(st *State, f *ssa.Builtin, c *ssa.CallCommon, args []Val,
 			xv := st.loadVal(extendIdx(s2.L[0], s2.L[1]), st1.Elem())
 			st.assume(tEq(st.elemsOf([3]Term{obj, "0", nl}), tStore(st.elemsOf([3]Term{s1.L[0], s1.L[1], s1.L[2]}), xv.L[0], "true")))
 		}
+		if el := leavesOf(st1.Elem()); len(el) == 2 && el[0].Kind == LkTag && (s2.L[2] == "1" || s2.L[2] == "(- 1 0)") {
+			// slices of interface values: the tags of the elements, and the element set of the boxed string-kinded ones
+			xv := st.loadVal(extendIdx(s2.L[0], s2.L[1]), st1.Elem())
+			old3, new3 := [3]Term{s1.L[0], s1.L[1], s1.L[2]}, [3]Term{obj, "0", nl}
+			st.assume(tEq(st.tagsOf(new3), tStore(st.tagsOf(old3), xv.L[0], "true")))
+			st.assume(tEq(st.elemsOf(new3), tIte(st.stringKindedTag(xv.L[0]), tStore(st.elemsOf(old3), unboxString(xv.L[1]), "true"), st.elemsOf(old3))))
+		}
 		x.notes = append(x.notes, "append allocates a fresh backing array (aliasing through spare capacity is not modelled)")
 		return Val{T: rt, L: []Term{obj, "0", nl}}
 	case "delete":
@@ -865,7 +872,9 @@ func (x *Exec) noteSend(st *State, chv ssa.Value, ch Val, v Val, cond Term, pos 
 	if !ok {
 		prev = rnil
 	}
-	st.ghostInt["lastsent:"+ck] = tIte(cond, v.L[0], prev)
+	if len(v.L) > 0 {
+		st.ghostInt["lastsent:"+ck] = tIte(cond, v.L[0], prev)
+	}
 	x.noteLast(st, "lastsent:", ck, v, cond)
 	x.noteLast(st, "sentch:", ck, ch, cond)
 }
